@@ -15,3 +15,24 @@ Theorem C08_source_account_did_sign : forall id keys (c : option sclaim),
   = acct_did_sign id keys c.
 Proof. exact src_acct_did_sign. Qed.
 Print Assumptions C08_source_account_did_sign.
+
+(* the key set the account's DidSign asks: SigningKeys.Contains is membership of the key among the keys of the map
+   (whatever scope is filed under it - a plain key's nil as well), Keys lists them, GetScope hands back what is filed
+   under a key; the map is an association list, the scopes opaque values of any type *)
+Theorem C08_source_signing_keys_contains : forall (V : Type) (vnil : V) (sk : list (string * V)) (k : string),
+  V2.SigningKeys_Contains V vnil sk k = existsb (fun e => (fst e =? k)%string) sk.
+Proof. intros V vnil. exact (src_sk_contains vnil). Qed.
+Print Assumptions C08_source_signing_keys_contains.
+Theorem C08_source_signing_keys_keys : forall (V : Type) (vnil : V) (sk : list (string * V)), V2.SigningKeys_Keys V vnil sk = map fst sk.
+Proof. intros V vnil. exact (src_sk_keys vnil). Qed.
+Print Assumptions C08_source_signing_keys_keys.
+Theorem C08_source_signing_keys_get_scope : forall (V : Type) (vnil : V) (sk : list (string * V)) (k : string),
+  V2.SigningKeys_GetScope V vnil sk k = match go_plookup sk k with Some v => (v, true) | None => (vnil, false) end.
+Proof. intros V vnil. exact (src_sk_get_scope vnil). Qed.
+Print Assumptions C08_source_signing_keys_get_scope.
+(* ... so the account's DidSign, asked through the translated Contains of a key set, is the model's over that set's keys *)
+Theorem C08_source_account_did_sign_keyset : forall (V : Type) (vnil : V) (sk : list (string * V)) id (c : option sclaim),
+  V2.AccountClaims_DidSign (V2.SigningKeys_Contains V vnil sk) id (sc_iss' c) (sc_ia' c) (sc_ia' c) (sc_is KActivation c) (sc_is KUser c) (sc_nil c)
+  = acct_did_sign id (map fst sk) c.
+Proof. intros V vnil. exact (src_acct_did_sign_keyset vnil). Qed.
+Print Assumptions C08_source_account_did_sign_keyset.
